@@ -39,6 +39,7 @@ where
 theorem poly_roundtrip (R : Registry) (C : RtCtx F G cfg S rd) (hpoly : S.poly = true) (hiw : S.iw = false)
     (name ns : Text) (base : Option Text) (fields : Fields) (o : Occ) (cd : ClassDef)
     (hfind : R.find? cd.name = some cd) (hne : cd.name ≠ name) (hsub : R.hier.isSub R.length cd.name name = true)
+    (hnwn : cfg.notWrapped.contains name = false) (hnwc : cfg.notWrapped.contains cd.name = false)
     (hnd : namesDistinct (cd.fields.map (·.1)) = true) (hwf : wfFields cd.fields = true)
     (fvs : List (Text × Val)) (hc : conformsFields cd.fields fvs = true)
     (hmp : cfg.proto.isMsgpack = true → fitsFields F fvs = true ∧ (rd = true → mpReadableFields cd.fields = true))
@@ -48,12 +49,14 @@ theorem poly_roundtrip (R : Registry) (C : RtCtx F G cfg S rd) (hpoly : S.poly =
   have hcas : S.cas = .dict := by
     have := C.hsc; simpa [Spell.consistent, hiw] using this
   have hiw' : cfg.ignoreWrappers = false := by rw [← C.hiw]; exact hiw
+  have hu : cfg.unwrapped name = false := by simp only [Cfg.unwrapped, hiw', hnwn, Bool.or_false]
+  have hnwS : S.nw cd.name = false := by rw [C.hnw]; exact hnwc
   have hk := kvs_rt R C hcas cd.fields cd.fields [] fvs [] (rt_fields R C cd.fields) (by simp) (by simpa using hnd)
     (by simp [slotNames]) hwf hc hmp hpl
   simp only [List.nil_append] at hk
-  simp only [encOne, polyTarget_sub R hpoly name fields cd hfind hne hsub, wrapPairs, hcas, hiw,
+  simp only [encOne, polyTarget_sub R hpoly name fields cd hfind hne hsub, wrapPairs, hcas, hiw, hnwS, Bool.or_false,
     Bool.false_eq_true, if_false]
-  simp only [decode, hiw', Bool.false_eq_true, if_false, decodeWrapped, C.hwkey, Res.good_bind,
+  simp only [decode, hu, Bool.false_eq_true, if_false, decodeWrapped, C.hwkey, Res.good_bind,
     resolveClass_sub R name fields cd hfind hne hsub, decodeBody]
   have hk' : decodeKvs F G cfg R cd.fields (List.map (fun p => (S.kOut p.fst, p.snd)) (encodeFields S R cd.fields fvs))
       (initAcc cd.fields) = Res.good (finalSlots S cd.fields fvs) := hk
